@@ -209,10 +209,11 @@ func c16Bubble(c c16Case) c08Result {
 			cl.sent++
 		case "stalled-response":
 			cl.p.stalled.Store(true)
-			// the server-to-client direction gets a tiny window so that the response write blocks
+			// the client stops reading and the server-to-client direction gets a tiny window, so that the response write blocks
 			b, rid := mkReq(0, true)
 			cl.inflight = rid
 			setPeerWindow(conn, 8)
+			conn.PauseReads()
 			_, _ = conn.Write(b)
 			cl.sent++
 		case "closed":
@@ -369,6 +370,7 @@ func c16Bubble(c c16Case) c08Result {
 	for _, cl := range clients {
 		if cl.p != nil {
 			cl.p.stalled.Store(false)
+			cl.p.c.ResumeReads()
 			cl.p.c.Close()
 		}
 	}
